@@ -52,6 +52,7 @@ F3 == << Doc("F3", "ab", EnumS(<<JS(<<"a">>), JS(<<"b">>)>>)),
          Doc("F3", "cased", EnumS(<<JS(<<"r","e","d">>), JS(<<"G","r","e","e","n">>), JS(<<"B","L","U","E">>)>>)),
          Doc("F3", "odd", EnumS(<<JS(<<"a","-","b">>), JS(<<"c"," ","d">>), JS(<<"1","x">>), JS(<<"t","y","p","e">>)>>)),
          Doc("F3", "one", EnumS(<<JS(<<"o","n","l","y">>)>>)),
+         Doc("F3", "with-empty", EnumS(<<JS(<< >>), JS(<<"a">>)>>)),
          Doc("F3", "with-len", [type |-> "string", enum |-> <<JS(<<"a">>), JS(<<"b","b">>), JS(<<"c","c","c">>)>>, maxLength |-> 2]),
          Doc("F3", "ints", [type |-> "integer", enum |-> <<JInt(1), JInt(2), JInt(3)>>]),
          Doc("F3", "nums", [type |-> "number", enum |-> <<JHalf(3), JInt(2)>>]),
@@ -165,6 +166,9 @@ F10 == << Doc("F10", "scalars", SAnyOf(<< SInt, SStr >>)),
           Doc("F10", "tuples-long-first", SAnyOf(<< STuple(<<SInt, SStr, SBool>>), STuple(<<SInt, SStr>>) >>)),
           Doc("F10", "tuple-vs-fixed", SAnyOf(<< SFixed(SInt, 3), STuple(<<SInt, SInt>>) >>)),
           Doc("F10", "obj-required-disjoint", SAnyOf(<< SObj(Props1("a", SInt), {"a"}), SArr(SInt) >>)),
+          Doc("F10", "typelist-vs-single", SAnyOf(<< [types |-> <<"string", "null">>], SInt >>)),
+          Doc("F10", "single-vs-typelist", SAnyOf(<< SBool, [types |-> <<"integer", "string">>] >>)),
+          Doc("F10", "typelists-disjoint", SAnyOf(<< [types |-> <<"integer", "null">>], [types |-> <<"string", "boolean">>] >>)),
           Doc("F10", "enum-consts", SAnyOf(<< EnumS(<<JS(<<"a">>)>>), EnumS(<<JS(<<"b">>)>>) >>)) >>
 
 F11 == << Doc("F11", "two-objs", SAllOf(<< SObj(Props1("a", SInt), {"a"}), SObj(Props1("b", SStr), {}) >>)),
@@ -186,6 +190,7 @@ InnerPool == << [id |-> "enumA", s |-> EnumS(<<JS(<<"r","e","d">>), JS(<<"g">>)>
                 [id |-> "enumB", s |-> EnumS(<<JS(<<"s">>), JS(<<"l">>)>>)],
                 [id |-> "objA", s |-> SObj(Props1("p", SInt), {"p"})],
                 [id |-> "objB", s |-> SObj(Props1("q", SStr), {"q"})],
+                [id |-> "objO", s |-> SObj(Props1("r", SStr), {})],
                 [id |-> "strC", s |-> [type |-> "string", minLength |-> 1, maxLength |-> 2]],
                 [id |-> "intE", s |-> [type |-> "integer", enum |-> <<JInt(1), JInt(2)>>]],
                 [id |-> "int", s |-> SInt] >>
